@@ -200,9 +200,12 @@ func (r *nhRun) apply(e nhEvent) error {
 		n.cleanTick()
 	case "advance":
 		n.advance(time.Duration(e.S) * time.Second)
-	case "restart":
+	case "restart", "restart1s":
 		if err := n.restart(); err != nil {
 			return err
+		}
+		if e.Op == "restart1s" {
+			n.advance(time.Second) // a restart takes time
 		}
 	case "cron":
 		n.runCron(e.N)
